@@ -250,8 +250,12 @@ func Cmp(ei, ej Object) int {
 	case STRING:
 		return cmp.Compare(ei.(String).Value, ej.(String).Value)
 
-	// RETURN, QUOTE, MACRO, ANY aren't expected to be compared.
-	case RETURN, QUOTE, MACRO, UNKNOWN, ANY:
+	case QUOTE:
+		// quote() results are values a program can hold, compare and use as map keys: order them by their printed form.
+		return cmp.Compare(ei.(Quote).Inspect(), ej.(Quote).Inspect())
+
+	// RETURN, MACRO, ANY aren't expected to be compared.
+	case RETURN, MACRO, UNKNOWN, ANY:
 		panic(fmt.Sprintf("Unexpected type in Cmp: %s", ti))
 	}
 	return 1
